@@ -255,8 +255,14 @@ def lifeLine (st : Life) (l : Line) : Life × String :=
   | "dropcoll" => (lstep st (.drop l.p0), "r=ok")
   | "hclose" => (lstep st (.closeHandle l.p0), "r=ok")
   | "cadh" => (lstep st .deleteBucket, "r=ok")
+  | "mfeed" =>
+    -- a bucket-level feed over several collections: one member per collection under the same id
+    ((l.p1.splitOn ",").foldl (fun s c => lstep s (.start l.p0 c false)) st, "r=ok")
   | "lifestate" =>
-    (st, "r=ok " ++ " ".intercalate ((sorted st).map (fun f => f.id ++ "=" ++ (if f.ended then "1" else "0"))) ++ " afterdone=0")
+    -- a bucket-level feed's done channel closes when all of its members have ended
+    let ids := ((sorted st).map (·.id)).eraseDups
+    (st, "r=ok " ++ " ".intercalate (ids.map (fun id =>
+      id ++ "=" ++ (if (st.feeds.filter (fun f => f.id == id)).all (·.ended) then "1" else "0"))) ++ " afterdone=0")
   | "probe" =>
     (st, "r=ok " ++ " ".intercalate (((sorted st).filter (fun f => f.coll == l.p0)).map (fun f => f.id ++ "=" ++ (if f.ended then "0" else "1"))))
   | _ => (st, "r=model-unknown-op")
